@@ -201,6 +201,14 @@ def run_shard(ctx, shard):
         which = i % 3
         if which == 0:
             c = gs.case_1d(rng, allow_zero=True)
+            if rng.uniform() < 0.3:
+                # missing moments at some frequencies (documented: counted as 0 in the band averages)
+                for nm in ("a1", "b1", "a2", "b2"):
+                    arr = np.array(c[nm], dtype=float)
+                    arr[rng.uniform(0, 1, arr.shape) > 0.8] = np.nan
+                    c[nm] = arr
+                c["nankind"] = "nan-moments"
+                ctx.count("C03.cases_with_nan_moments")
             c["_sub"] = sub
             c["_mode"] = "def"
             definitions(ctx, c, np.random.default_rng(sub))
